@@ -265,8 +265,11 @@ def hSpawn : Handler := fun j => do
     let c01r : Option (String × String) :=
       if !(inputWF && decide (C01.TraitIdsNonzero g) && g.modules.isEmpty) then none else c01Pop "spawn" [g] popJ ip genesis
     let c01 := c01r.isNone
-    let c03 := !inputWF || (decide (ip.reg.nextInn ≥ (g.genes.map (·.inn)).foldl max 0) && decide (ip.reg.nextNode ≥ (g.nodes.map (·.id)).foldl max 0))
-    return { corr := corr, spec := c06 && c02 && c01 && c03, nontrivial := inputWF && g.genes.any (fun y => !y.en), cls := (← fldStr inp "origin"),
+    -- C03 for ALL start genomes (in whatever order genes and nodes are listed; fix 48b1f99): the counters are at least every
+    -- number / node id the start genome holds, and no record exists yet
+    let c03 := g.genes.all (fun y => decide (y.inn ≤ ip.reg.nextInn)) && g.nodes.all (fun n => decide (n.id ≤ ip.reg.nextNode)) &&
+               ip.reg.records.isEmpty
+    return { corr := corr, spec := c06 && c02 && c01 && c03, nontrivial := (inputWF && g.genes.any (fun y => !y.en)) || ((← fldStr inp "origin").endsWith "/unsorted"), cls := (← fldStr inp "origin"),
              detail := (d.getD "") ++ (if used == consumed then "" else s!" randomness {used} vs {consumed}"),
              props := [("C06", c06, "spawned member differs from the start genome in more than weights, or shares state", "spawn:topology"),
                        ("C02", c02, "spawned population violates the population invariant: " ++ PopSpec.popInvWhy ip o.popSize, "spawn:popinv"),
